@@ -20,7 +20,7 @@ def getitem(x, key):
     """
     from .compressed import GCXS
 
-    if x.ndim == 1:
+    if x.ndim <= 1:
         result = x.tocoo()[key]
         if np.isscalar(result):
             return result
